@@ -119,7 +119,7 @@ func (t *Toolchain) BuildLlgo(dir, out string, cfg Config, extraArgs ...string) 
 	env := append(os.Environ(), "LLGO_ROOT="+t.Repo, "XDG_CACHE_HOME="+xdg, "TMPDIR="+tmp)
 	env = append(env, cfg.Env...)
 	start := time.Now()
-	outb, code, to := RunCmd(dir, env, nil, 180*time.Second, t.Llgo, args...)
+	outb, code, to := RunCmd(dir, env, nil, 300*time.Second, t.Llgo, args...)
 	r := BuildResult{OK: code == 0 && !to, Output: string(outb), Timeout: to, Dur: time.Since(start)}
 	if !r.OK && (strings.Contains(r.Output, "_Cfunc_LLVMRunPasses") || strings.Contains(r.Output, "_Cfunc_LLVMTargetMachineEmitToMemoryBuffer") ||
 		strings.Contains(r.Output, "LLVM ERROR") || strings.Contains(r.Output, "signal arrived during cgo execution")) {
@@ -442,6 +442,10 @@ func (t *Toolchain) RunLlgo(dir string, cfg Config, stdin []byte, env ...string)
 	defer os.RemoveAll(filepath.Dir(bin))
 	b := t.BuildLlgo(dir, bin, cfg)
 	if !b.OK {
+		if b.Timeout {
+			// a build that hits the time budget (loaded machine) is inconclusive, never a violation
+			return Outcome{BuildOut: "build timed out\n" + b.Output, Skip: true}
+		}
 		return Outcome{BuildOut: b.Output, Skip: b.ToolchainSkip}
 	}
 	return runOutcome(bin, stdin, env)
